@@ -8,21 +8,78 @@ TRUSTED = ("Trusted base: TLC's evaluation of the specification; the harness pro
            "(harness/val.go, ~450 lines) and drivers; Go's reflect/regexp/strconv. Values outside the model universe "
            "(|n| >= 2^29, non-dyadic floats, general regular expressions) are not generated.")
 
+def _c(category, text, ref, technique):
+    return dict(category=category, text=text, design_ref=ref, technique=technique, note=TRUSTED)
+
+
 CLAIMS = {
-    "C01": dict(
-        category="model_checking",
-        text=("The language definition is the TLA+ big-step semantics Sem!Eval. TLC enumerates every well-typed "
+    "C01": _c("model_checking",
+              "The language definition is the TLA+ big-step semantics Sem!Eval. TLC enumerates every well-typed "
               "expression of seven families up to a node budget (derivation machine Gen.tla) and, beyond it, random "
               "deep derivations; for each expression and each environment assignment TLC computes value, failure and "
               "call log, and the real library (Compile with Env, optimizer on and off, Run) must reproduce them. "
               "Bounded-exhaustive over programs x inputs is the right level for a claim about every nesting of "
-              "code-generation schemes; the verdict always comes from a real execution."),
-        design_ref="DESIGN.md section 6 C01",
-        technique="TLA+ reference semantics; TLC-enumerated cases replayed into the real compiler+VM",
-        note=TRUSTED),
+              "code-generation schemes; the verdict always comes from a real execution.",
+              "DESIGN.md section 6 C01", "TLA+ reference semantics; TLC-enumerated cases replayed into the real compiler+VM"),
+    "C02": _c("model_checking",
+              "The same TLC-enumerated expressions and assignments, each compiled with the optimizer on and off (with and "
+              "without a declared type): both programs must fail together or return ObsEq values; only a constant integer "
+              "division/modulo by zero (Sem!HasConstDivZero) may be rejected by the optimizer alone. A disagreement is "
+              "attributed to a known finding only when the specification under that named deviation predicts the "
+              "observed outcome. The ConstExpr clause is not exercised.",
+              "DESIGN.md section 6 C02", "TLC-enumerated programs x inputs; differential real runs judged against Sem!Eval"),
+    "C05": _c("model_checking",
+              "VM.tla + Compiler.tla model the machine and the code generator; TLC checks on every expression x assignment "
+              "that the specified compiler's program is well-formed, never underflows and exits clean, also with a small "
+              "operand range where jump offsets overflow (must be rejected). Bound to the code three ways: real bytes vs "
+              "specified bytes (drift diagnostic), real runs traced through the verif hook and validated step by step by "
+              "TLC against VM!Step with WellFormed evaluated on the real bytes, and the overflowing shapes inflated to "
+              "real size and compiled/run for real.",
+              "DESIGN.md section 6 C05", "TLA+ machine model; TLC invariants; trace validation of hooked real runs; small-scope shapes inflated"),
+    "C06": _c("model_checking",
+              "Sem!Eval carries the allocation counter; TLC checks BudgetBounds and Conforms on the machine model and emits, "
+              "for every allocating expression x assignment x budget 1..7, whether the reference refuses the run; the real "
+              "VM with vm.MemoryBudget set must refuse exactly those runs.",
+              "DESIGN.md section 6 C06", "TLA+ allocation accounting; TLC cases x budgets replayed into the real VM"),
+    "C07": _c("model_checking",
+              "History.tla: the state is a history of runs on one reusable machine; TLC checks FreshEquiv and "
+              "PrologueResets in every reachable history up to length 3/4 over a pool mixing successes, failures inside "
+              "loops and allocating runs, and emits each history; each is replayed on ONE real vm.VM value and every run "
+              "compared with the fresh-machine outcome (specified and real). Random histories of length 60/200 cross "
+              "the budget many times over.",
+              "DESIGN.md section 6 C07", "TLA+ history machine; TLC-enumerated histories replayed on one real VM value"),
+    "C09": _c("exploration",
+              "The specification makes Compile and Run functions of their arguments; on the TLC-enumerated corpora each "
+              "source is compiled twice (programs compared byte for byte, constant for constant, by value and Go type) and "
+              "each program run twice per assignment: equal results and call logs, and program, environment value and "
+              "sample environment deep-equal to pristine copies afterwards. Exploration level: determinism across "
+              "processes or map-iteration orders is sampled, not proven.",
+              "DESIGN.md section 6 C09", "TLC-enumerated programs x inputs; repeated real compile/run compared"),
+    "C10": _c("model_checking",
+              "Walk.tla defines the promised traversal (WalkSeq) and the effect of a patching visitor (Patch) on the "
+              "specification's trees; TLC checks WalkBalanced and emits, for every expression of six families up to the "
+              "node budget, the event sequence and the patched source. The real ast.Walk over the real parser's tree must "
+              "produce exactly that sequence, and Compile under a real Patch visitor must behave as Compile of the "
+              "patched source on every assignment.",
+              "DESIGN.md section 6 C10", "TLA+ traversal specification; TLC-enumerated trees walked and patched for real"),
+    "C14": _c("model_checking",
+              "Prim!Arith is the promotion rule of the property; TLC enumerates every pair of the 12 numeric kinds x every "
+              "arithmetic/comparison operator x 1-3 values per kind (extrema included), plus nested random combinations; the "
+              "real result must have the specified value and kind, and the kind the real checker reports.",
+              "DESIGN.md section 6 C14", "TLA+ promotion rule; exhaustive kind pairs x operators replayed"),
+    "C15": _c("model_checking",
+              "The TLC-enumerated expressions and assignments compiled against the struct type, a pointer to it, a map with "
+              "the same members, without any type, and evaluated with Eval: all variants that compile and succeed must "
+              "return ObsEq values.",
+              "DESIGN.md section 6 C15", "TLC-enumerated programs x inputs; differential real runs across type information"),
+    "C18": _c("model_checking",
+              "The identities are stated in TLA+ (LawPairs) over the reference semantics and checked by TLC in every state "
+              "(LawsHold); both sides of each instance (closures nested to depth 2/3) are compiled and run for real on "
+              "every assignment and must succeed with equal values wherever the reference evaluates both.",
+              "DESIGN.md section 6 C18", "TLA+ identities checked by TLC on the reference semantics and on real runs"),
 }
 
-NOT_YET = "check not built yet in this round (see DESIGN.md section 6 for the planned TLA+ formulation)"
+NOT_YET = "no check built in the time available: not claimed (DESIGN.md section 6 has the planned TLA+ formulation, section 7 the status)"
 
 
 def main():
@@ -68,7 +125,7 @@ def main():
         fh.write("\n")
 
 
-HOOK_COMMITS = []
+HOOK_COMMITS = ["44d0fad"]
 NOT_APPLICABLE = {}
 
 if __name__ == "__main__":
